@@ -24,8 +24,8 @@ ANCHOR_FILES = ["src/ropt/config/utils.py", "src/ropt/config/validated_types.py"
 RULE = ("case = one generated dictionary (valid, or valid + one invalidating mutation); non-trivial if validation was attempted and judged; distinct key = case index; "
         "monitor_counters: attributes and arrays attacked, fields compared after re-validation")
 ASSUMPTIONS = ["filter/estimator/sampler index maps are generated at full length (their broadcasting is not part of the statement)"]
-REQUIRED = {"quick": {"attrs_attacked": 20000, "arrays_attacked": 9000, "revalidate_fields_compared": 20000, "rejections_checked": 217, "canonical_checked": 682, "section_objects_compared_after_use": 3500, "with_nearly_normalized_weights": 100, "with_relative_perturbations": 144, "with_transform_context": 200, "with_negative_objective_weight": 100, "section_objects_reused": 600, "__nontrivial__": 900},
-            "thorough": {"attrs_attacked": 500000, "arrays_attacked": 241877, "revalidate_fields_compared": 500000, "rejections_checked": 5977, "canonical_checked": 18022, "section_objects_compared_after_use": 90000, "with_nearly_normalized_weights": 2500, "with_relative_perturbations": 4147, "with_transform_context": 5000, "section_objects_reused": 15000, "__nontrivial__": 24000}}
+REQUIRED = {"quick": {"attrs_attacked": 20000, "arrays_attacked": 9000, "revalidate_fields_compared": 20000, "rejections_checked": 217, "canonical_checked": 682, "plain_settings_compared": 800, "section_objects_compared_after_use": 3500, "with_nearly_normalized_weights": 100, "with_relative_perturbations": 144, "with_transform_context": 200, "with_negative_objective_weight": 100, "section_objects_reused": 600, "__nontrivial__": 900},
+            "thorough": {"attrs_attacked": 500000, "arrays_attacked": 241877, "revalidate_fields_compared": 500000, "rejections_checked": 5977, "canonical_checked": 18022, "plain_settings_compared": 20000, "section_objects_compared_after_use": 90000, "with_nearly_normalized_weights": 2500, "with_relative_perturbations": 4147, "with_transform_context": 5000, "section_objects_reused": 15000, "__nontrivial__": 24000}}
 N = {"quick": 1500, "thorough": 40000}
 
 
@@ -343,6 +343,14 @@ def run_case(case, obs):
     want_p = d["gradient"].get("perturbation_min_success")
     want_p = P if want_p is None else min(want_p, P)
     obs.check(cfg.gradient.perturbation_min_success == want_p, "perturbation_min_success_not_clamped", got=cfg.gradient.perturbation_min_success, want=want_p)
+    # settings that need no resolving are the settings the user wrote
+    g_in = d["gradient"]
+    for key, got, want in (("seed", tuple(cfg.gradient.seed), (tuple(g_in["seed"]) if isinstance(g_in.get("seed"), (list, tuple)) else (g_in.get("seed"),)) if "seed" in g_in else None),
+                           ("number_of_perturbations", cfg.gradient.number_of_perturbations, g_in.get("number_of_perturbations")),
+                           ("merge_realizations", cfg.gradient.merge_realizations, g_in.get("merge_realizations"))):
+        if want is not None:
+            obs.count("plain_settings_compared")
+            obs.check(got == want, "setting_lost_in_validation", field="gradient." + key, got=got, want=want, perturbation_types=g_in.get("perturbation_types"))
     # magnitudes: relative -> fraction of the (optimizer-domain) bound range
     pt = np.broadcast_to(np.asarray(d["gradient"].get("perturbation_types", 1)), (V,))
     if np.any(pt == 2):
